@@ -333,7 +333,7 @@ vf_run_isolated(void (*fn)(void *), void * arg, char * sig, size_t siglen, char 
 	vf_read_file(path, text, textlen);
 	unlink(path);
 	if (WIFEXITED(st) && WEXITSTATUS(st) == 0) { if (sig && siglen) sig[0] = 0; }
-	else if (WIFEXITED(st) && WEXITSTATUS(st) == 3) { vf_engine_error("isolated run reported an engine error: %.300s", text); }
+	else if (WIFEXITED(st) && WEXITSTATUS(st) == 3) { vf_engine_error("isolated run reported an engine error: %.3000s", text); }
 	else vf_crash_sig(st, text, sig, siglen);
 	return st;
 }
@@ -422,5 +422,10 @@ vf_finish(void)
 	}
 	fprintf(f, "]\n}\n");
 	if (f != stdout) fclose(f); else fflush(f);
+	if (vf_replay != NULL) {	/* replay: show what was found */
+		for (i = 0; i < SH->nviol; i++) printf("REPLAY-VIOLATION %s: %s\n", SH->viol[i].sig, SH->viol[i].msg);
+		if (SH->nviol == 0) printf("REPLAY: no violation\n");
+		fflush(stdout);
+	}
 	return SH->violtotal ? 1 : 0;
 }
